@@ -16,7 +16,7 @@ PROP = dict(
           "enum unit: every string over {\\\\,\\\",a,space} of length <=5 plus ~60 hostile strings x 4 forms (exhaustive). texts unit: random "
           "bytes, token soups, valid expressions and destructive edits (unbalanced parenthesis, unterminated quote/regexp, term without ':' "
           "or value, empty fixed list, unknown order, .unit in projection, .config in filter, an empty quoted key alone or in front of any of these, empty or blank order names); keys include look-alikes of the reserved names (.configs, .config dir, .units); non-trivial = a destructive edit. Distinct = "
-          "distinct case JSON. pairs unit: two terms of one filter whose key and value texts coincide when glued together, or the same text as literal and as regexp, in six combinations, evaluated on 16 configurations each (exhaustive list). flags unit: malformed projection/filter expressions given to benchstat's -filter/-table/-row/-col/-ignore must make the entry point return an error."),
+          "distinct case JSON. pairs unit: two terms of one filter whose key and value texts coincide when glued together, or the same text as literal and as regexp, in six combinations, evaluated on 16 configurations each (exhaustive list). flags unit: malformed projection/filter expressions given to benchstat's -filter/-table/-row/-col/-ignore must make the entry point return an error, and well-formed ones (including keys that can only be written quoted) must be accepted by all five flags. words/enum: every word that survives the file format is also put into a six-result stream read by ONE Reader, alternating with a same-length neighbour; the fixed list and the literal filter keep exactly the word's results."),
     assumptions=["strconv.Quote produces a valid double-quoted Go string literal"],
     units=[
         E("enum", "A", "./c07", "TestC07Enum", 1, 1),
